@@ -138,8 +138,9 @@ func checkC17(c *Ctx) {
 			c.Undecided("FR-PROV", "instance-count", token.NoPos, fmt.Sprintf("%d appends found in filterRaw; it must append its input somewhere", n))
 		}
 	}
-	// LOWER + NILFILTER over all FilterTag calls
-	ml := p.Func("maybeLower")
+	// LOWER + NILFILTER over all FilterTag calls. The lowering function is whatever module function produces the name
+	// handed to the predicate (today maybeLower); its per-byte mapping is checked below, whatever it is called.
+	lowerFns := map[*ssa.Function]bool{}
 	nCalls := 0
 	for _, fn := range p.Funcs {
 		eachInstr(fn, func(in ssa.Instruction) {
@@ -155,10 +156,11 @@ func checkC17(c *Ctx) {
 			lowered = func(v ssa.Value, f *ssa.Function, depth int) (bool, string) {
 				switch a := v.(type) {
 				case *ssa.Call:
-					if a.Call.StaticCallee() == ml && ml != nil {
+					if g := a.Call.StaticCallee(); g != nil && g.Blocks != nil && p.InModule(g) {
+						lowerFns[g] = true // its mapping is checked below
 						return true, ""
 					}
-					return false, "argument must be maybeLower(name), got " + describeValue(v)
+					return false, "argument must be a lower-cased name produced by a module function, got " + describeValue(v)
 				case *ssa.Slice:
 					if h.buf(a.X) {
 						return true, ""
@@ -215,10 +217,19 @@ func checkC17(c *Ctx) {
 			}
 		}
 	}
-	// maybeLower mapping
-	if c.NeedFunc("LOWER", ml, "maybeLower") {
-		checkLowerMap(c, ml)
+	// mapping of the lowering function(s)
+	if len(lowerFns) == 0 {
+		c.Undecided("LOWER", "lowering-function", token.NoPos, "no module function produces the name handed to FilterTag in filterRaw")
 	}
+	var lfs []*ssa.Function
+	for g := range lowerFns {
+		lfs = append(lfs, g)
+	}
+	sort.Slice(lfs, func(i, j int) bool { return lfs[i].Name() < lfs[j].Name() })
+	for _, g := range lfs {
+		checkLowerMap(c, g)
+	}
+	theLowerFns = lowerFns
 	ruleGFMSet(c)
 	ruleFRAutomaton(c)
 	ruleFRTagSkip(c)
@@ -228,6 +239,8 @@ func checkC17(c *Ctx) {
 }
 
 // allCallSitesFiltered: every static call of fn lies behind a FilterTag != nil edge in its caller.
+var theLowerFns map[*ssa.Function]bool // lowering functions found by the LOWER rule (used by LOWER-TRANSIENT)
+
 func allCallSitesFiltered(p *Program, fn *ssa.Function) bool {
 	return allCallSitesFilteredIn(p, fn, map[*ssa.Function]bool{})
 }
@@ -260,6 +273,20 @@ func allCallSitesFilteredIn(p *Program, fn *ssa.Function, busy map[*ssa.Function
 func checkLowerMap(c *Ctx, fn *ssa.Function) {
 	bs := newBSET(c.P)
 	n := 0
+	// the name parameter: the (first) byte-slice parameter, wherever it stands (function or method)
+	var nameParam ssa.Value
+	for _, q := range fn.Params {
+		if sl, ok := q.Type().Underlying().(*types.Slice); ok {
+			if b, ok := sl.Elem().Underlying().(*types.Basic); ok && b.Kind() == types.Uint8 {
+				nameParam = q
+				break
+			}
+		}
+	}
+	if nameParam == nil {
+		c.Undecided("LOWER", "maybeLower:signature", fn.Pos(), "the lowering function has no byte-slice parameter")
+		return
+	}
 	eachInstr(fn, func(in ssa.Instruction) {
 		call, ok := in.(*ssa.Call)
 		if !ok {
@@ -305,9 +332,9 @@ func checkLowerMap(c *Ctx, fn *ssa.Function) {
 		n++
 		key := fmt.Sprintf("maybeLower:byte#%d", n)
 		if ia, ok := src.(*ssa.UnOp).X.(*ssa.IndexAddr); ok {
-			okCov, why := ia.X == ssa.Value(fn.Params[0]), "the bytes copied are not elements of the whole name parameter (a prefix or suffix is dropped)"
+			okCov, why := ia.X == nameParam, "the bytes copied are not elements of the whole name parameter (a prefix or suffix is dropped)"
 			if okCov {
-				okCov, why = unitStrideOver(ia.Index, fn.Params[0])
+				okCov, why = unitStrideOver(ia.Index, nameParam)
 			}
 			if why == "" {
 				why = "every byte of the name is copied"
